@@ -30,13 +30,13 @@ TraceNext ==
        [] ev.e = "cfg" -> OvCfg(ev)
        [] ev.e = "crash" -> /\ Consume
                             /\ GD("NoCrash", ev.sig, FALSE)
-                            /\ UNCHANGED <<live, heaps, dflt, backing, flux, arenas, osfail, cfg, pcm, origin, foreign, ocfg>>
+                            /\ UNCHANGED <<live, heaps, dflt, backing, flux, arenas, osfail, cfg, aux, origin, foreign, ocfg>>
        [] ev.e = "reset" -> /\ Consume
                             /\ live' = <<>> /\ heaps' = (1 :> [t |-> 0, backing |-> TRUE, arena |-> 0, desc |-> 0])
                             /\ dflt' = (0 :> 1) /\ backing' = (0 :> 1) /\ flux' = (0 :> NoCall) /\ arenas' = <<>>
-                            /\ osfail' = (0 :> <<FALSE, FALSE>>) /\ pcm' = <<0, 0>> /\ origin' = <<>> /\ foreign' = {}
+                            /\ osfail' = (0 :> <<FALSE, FALSE>>) /\ aux' = [m |-> <<0, 0>>, groups |-> <<>>] /\ origin' = <<>> /\ foreign' = {}
                             /\ UNCHANGED <<cfg, ocfg>>
-       [] ev.e = "end" -> Consume /\ UNCHANGED <<live, heaps, dflt, backing, flux, arenas, osfail, cfg, pcm, origin, foreign, ocfg>>
+       [] ev.e = "end" -> Consume /\ UNCHANGED <<live, heaps, dflt, backing, flux, arenas, osfail, cfg, aux, origin, foreign, ocfg>>
        [] OTHER -> FALSE
 
 TraceSpec == TraceInit /\ [][TraceNext]_vars
